@@ -44,8 +44,19 @@ def py_spec(w, n, v, op):
     def fit(x):
         return (x, x < lim)
 
-    if c in "SK":
+    if c in "SKV":
         return fit(a[1]) if a[1] < (1 << a[0]) else (v, False)
+    if c == "E":
+        return (v // a[0], True) if 0 < a[0] < bw else (v, False)
+    if c in "WYZ":
+        return (v, True)
+    if c == "U":
+        if not (a[0] < n and a[1] < bw):
+            return (v, False)
+        sh = w * a[0]
+        nv = v - (((v >> sh) & (bw - 1)) << sh) + (a[1] << sh)
+        top = (nv.bit_length() - 1) // w if nv else 0
+        return (nv, a[2] == top)
     if c == "A":
         return fit(v + a[1]) if a[1] < (1 << a[0]) else (v, False)
     if c == "B":
@@ -85,18 +96,25 @@ def valid_history(w, nbits, ops, allow_last_unfit=True):
         v2, ok = py_spec(w, n, v, op)
         if not ok:
             # only an overflowing (not a precondition-violating) last operation is tolerated
-            return allow_last_unfit and k == len(ops) - 1 and op[0] in "SAPMLK" and safe_unfit(w, n, op)
+            return allow_last_unfit and k == len(ops) - 1 and op[0] in UNFIT_KINDS and safe_unfit(w, n, op)
         v = v2
     return True
 
 
+UNFIT_KINDS = "SAPMLKVBQU"
+
+
 def safe_unfit(w, n, op):
+    """an operation outside the property (overflow, underflow, SetIndex to a wrong but in-range word) that is
+    still defined behaviour: allowed as the LAST step, where model and code must agree and the oracle is silent"""
     f = op.split(".")
     a = [int(x) for x in f[1:]]
-    if f[0] in "SAK":
+    if f[0] in "SAKVB":
         return a[1] < (1 << a[0]) and a[0] <= w * n
-    if f[0] == "P":
+    if f[0] in "PQ":
         return a[0] < (1 << w) and a[1] < n
+    if f[0] == "U":
+        return a[0] < n and a[1] < (1 << w) and a[2] < n
     if f[0] == "M":
         return a[0] < (1 << w)
     return f[0] == "L"
@@ -138,19 +156,35 @@ def gen_history(rng, w, nbits, maxlen=40):
     tries = 0
     while len(ops) < nsteps and tries < 400:
         tries += 1
-        k = rng.choice("SAAABBBOONNPQMMMDDDLLLRRFGCTKX" if v else "SSAAOPMLLRCTKSN")
+        k = rng.choice("SAAABBBOONNPQMMMDDDLLLRRFGCTKXEVWYZUU" if v else "SSAAOPMLLRCTKSNVWYZUB")
         ow = rng.choice(wides)
         if rng.random() < 0.4:
             ow = w
-        if k in "SK":
+        if k in "SKV":
             op = "%s.%d.%d" % (k, ow, operand(rng, ow))
+        elif k in "WYZ":
+            op = k
+        elif k == "U":
+            topw = (v.bit_length() - 1) // w if v else 0
+            i = min(n - 1, rng.choice([0, topw, topw, topw + 1, n - 1, rng.randrange(n)]))
+            x = operand(rng, w)
+            if rng.random() < 0.3:
+                x = 0
+            sh = w * i
+            nv = v - (((v >> sh) & ((1 << w) - 1)) << sh) + (x << sh)
+            kk = (nv.bit_length() - 1) // w if nv else 0
+            if rng.random() < 0.03:
+                kk = rng.randrange(n)          # a wrong index: outside the property, only as the last step
+            op = "U.%d.%d.%d" % (i, x, kk)
         elif k == "A":
             x = operand(rng, ow)
             op = "A.%d.%d" % (ow, x)
         elif k == "B":
             x = operand(rng, ow)
             r = rng.random()
-            if x > v or r < 0.15:
+            if x > v and r < 0.04:
+                pass                            # an underflow: outside the property, only as the last step
+            elif x > v or r < 0.15:
                 if v < (1 << ow) and r < 0.5:
                     x = v
                 else:
@@ -171,11 +205,11 @@ def gen_history(rng, w, nbits, maxlen=40):
             op = "Q.%d.%d" % (x, i)
         elif k == "M":
             op = "M.%d" % operand(rng, w)
-        elif k == "D":
+        elif k in "DE":
             d = operand(rng, w)
             if d == 0:
                 d = rng.choice([1, 2, 3, 10, (1 << w) - 1, (1 << (w - 1)) + 1])
-            op = "D.%d" % d
+            op = "%s.%d" % (k, d)
         elif k == "L":
             room = total - v.bit_length() if v else total + 8
             r = rng.randrange(8)
@@ -219,7 +253,7 @@ def gen_history(rng, w, nbits, maxlen=40):
         if ok:
             ops.append(op)
             v = v2
-        elif rng.random() < 0.04 and op[0] in "SAPMLK" and safe_unfit(w, n, op):
+        elif rng.random() < (0.5 if op[0] in "BU" else 0.04) and op[0] in UNFIT_KINDS and safe_unfit(w, n, op):
             ops.append(op)      # an overflowing last step: model and code must still agree, the oracle is silent
             break
     return ops
@@ -237,6 +271,10 @@ SCENARIOS = [
     lambda w, n: ["S.%d.%d" % (w, (1 << (w - 2)) + 1), "L.%d" % w, "O.%d.%d" % (w, 1 << (w - 1)), "D.%d" % ((1 << (w - 1)) + 1)],
     lambda w, n: ["S.%d.%d" % (w, (1 << w) - 1), "M.%d" % ((1 << w) - 1), "D.%d" % ((1 << w) - 1), "D.%d" % ((1 << w) - 1)],
     lambda w, n: ["S.%d.1" % w, "L.%d" % (w * n - 1), "R.%d" % (w * n - 1), "L.%d" % (w - 1), "L.1", "R.%d" % w],
+    # move / copy construction and assignment, /=, Storage()+SetIndex
+    lambda w, n: ["S.%d.7" % w, "L.%d" % w, "O.%d.5" % w, "W", "Y", "Z", "V.%d.9" % w, "A.%d.%d" % (w, (1 << w) - 1), "W"],
+    lambda w, n: ["S.%d.%d" % (w, (1 << w) - 1), "M.%d" % ((1 << w) - 1), "E.%d" % ((1 << w) - 1), "E.3", "U.1.3.1", "U.1.0.0", "C.0"] if n > 1 else ["S.%d.9" % w, "E.3", "U.0.0.0", "C.0"],
+    lambda w, n: ["U.%d.1.%d" % (n - 1, n - 1), "B.%d.1" % w, "W", "U.%d.0.%d" % (n - 1, max(0, n - 2)), "F", "G", "Y"] if n > 2 else ["U.0.5.0", "W", "Y"],
 ]
 
 
@@ -318,7 +356,7 @@ def nontrivial(case):
             v, ok = py_spec(w, n, v, op)
             if not ok:
                 break
-            if op[0] in "ABPQMDLRNOK":
+            if op[0] in "ABPQMDLRNOKEVU":
                 arith += 1
             if v >> w:
                 multi = True
@@ -361,8 +399,8 @@ def minimise(exe, case, want_oracle_fail):
 TRUSTED = vlib.TRUSTED_BASE_COMMON + [
     "modelled (coq/BigIntModel.v): every member of BigInt<Number_T,Width> that touches storage_/index_ (operator= from a number, copy(), "
     "Add, Subtract, Multiply, Divide, ShiftLeft, ShiftRight, doOperation Set/Or/And/Add/Subtract in both overloads, FindFirstBit, FindLastBit, "
-    "the comparison family, IsZero/NotZero/IsBig, the narrowing conversion, Clear) and DoubleSize<.,8|16|32|64>::Multiply/Divide; "
-    "Platform::FindFirstBit/FindLastBit are modelled as ctz / log2 (their contract); move construction/assignment and SetIndex/Storage() writes are not modelled",
+    "the comparison family, IsZero/NotZero/IsBig, the narrowing conversion, Clear, the copy and move constructors, move assignment, operator/=, SetIndex) and DoubleSize<.,8|16|32|64>::Multiply/Divide; "
+    "Platform::FindFirstBit/FindLastBit are modelled as ctz / log2 (their contract); copy/move construction, move assignment (moved-from object = result of src.Clear()), operator/=, Storage()[i] = x; SetIndex(k) and the const read accessors are modelled and exercised",
     "the model describes the code after findings/D6,D7,D8,D9,D10,D31 patches",
 ]
 
@@ -468,9 +506,9 @@ def check(tier):
         "evaluations": len(all_cases),
         "distinct_nontrivial": nt,
         "rule": "operation histories (<= 40 steps; <= 16 for more than 64 words) on BigInt<uint8|16|32|64, W> for W in %s, operands biased to 0, 1, all-ones, single bits, "
-                "2^k-1, top-bit(+odd) values, shifts biased to word multiples and to the exact room left; 10 fixed scenarios (carry/borrow chains, zero, the D6-D10/D31 replays) "
+                "2^k-1, top-bit(+odd) values, shifts biased to word multiples and to the exact room left; 13 fixed scenarios (carry/borrow chains, zero, the D6-D10/D31 replays, move/copy construction and assignment, /=, Storage()+SetIndex) "
                 "per instantiation; DoubleSize Multiply/Divide on 8/16/32/64-bit words and the 128/64 algorithm re-instantiated on 32-bit words; each history is generated so that "
-                "every step's precondition holds and the result fits (python mirror), at most one overflowing last step; non-trivial = value spans > 1 word at some step and >= 3 "
+                "every step's precondition holds and the result fits (python mirror), at most one last step outside the property (overflow, Subtract underflow, SetIndex to a wrong in-range word: defined behaviour, model = code compared, oracle silent); non-trivial = value spans > 1 word at some step and >= 3 "
                 "value-changing operations (helpers: an operand above a half word); distinct = distinct case strings" % json.dumps(COMBOS),
         "samples": [all_cases[0][:400], all_cases[len(all_cases) // 3][:400], all_cases[-1][:400]],
         "input_distribution": dist_total,
